@@ -6,13 +6,20 @@ from hypothesis import strategies as st
 MODES = (0, 2, 4, 6)
 
 
+def rarely(n):
+    """True about once in n draws.  Hypothesis favours the *simplest* value of a strategy (the first
+    element of sampled_from, 0 for integers) far more often than 1/n inside a composite strategy, so
+    the True sits in the middle of the list."""
+    return st.sampled_from([False] * (n // 2) + [True] + [False] * (n - n // 2 - 1))
+
+
 @st.composite
 def tok_params(draw, maxmax=8, init="any"):
     """Accepted parameter tuple, by construction (no rejection).
     init: 'any' -> all six parameters; 'default' -> init_min in {-1,0,1},
     init_max_silence arbitrary (irrelevant there)."""
     mx = draw(st.integers(1, maxmax))
-    if maxmax >= 8 and draw(st.integers(0, 14)) == 0:
+    if maxmax >= 8 and draw(rarely(15)):
         mx = draw(st.integers(250, 300))  # lengths above CPython's small-int cache
     mn = draw(st.integers(1, mx))
     sil = draw(st.integers(-1, mx - 1))
